@@ -1,6 +1,7 @@
 package main
 
 import (
+	"fmt"
 	"math"
 	"math/rand"
 	"net/netip"
@@ -442,4 +443,83 @@ func atoi(s string) int {
 
 func init() {
 	drivers["eval"] = driveEval
+}
+
+// ---------------------------------------------------------------- policies
+
+func (g *gen) scopeUID() types.EntityUID { return g.uid() }
+
+func (g *gen) policy(condDepth int) *ast.Policy {
+	p := &ast.Policy{Effect: ast.EffectPermit, Principal: ast.ScopeTypeAll{}, Action: ast.ScopeTypeAll{}, Resource: ast.ScopeTypeAll{}}
+	if g.r.Intn(3) == 0 {
+		p.Effect = ast.EffectForbid
+	}
+	ty := func() types.EntityType { return types.EntityType(pick(g, entTypes)) }
+	switch g.r.Intn(8) {
+	case 0:
+		p.Principal = ast.ScopeTypeEq{Entity: g.uid()}
+	case 1:
+		p.Principal = ast.ScopeTypeIn{Entity: g.uid()}
+	case 2:
+		p.Principal = ast.ScopeTypeIs{Type: ty()}
+	case 3:
+		p.Principal = ast.ScopeTypeIsIn{Type: ty(), Entity: g.uid()}
+	}
+	switch g.r.Intn(8) {
+	case 0:
+		p.Action = ast.ScopeTypeEq{Entity: g.uid()}
+	case 1:
+		p.Action = ast.ScopeTypeIn{Entity: g.uid()}
+	case 2:
+		var es []types.EntityUID
+		for n := g.r.Intn(4); n > 0; n-- {
+			es = append(es, g.uid())
+		}
+		p.Action = ast.ScopeTypeInSet{Entities: es}
+	}
+	switch g.r.Intn(8) {
+	case 0:
+		p.Resource = ast.ScopeTypeEq{Entity: g.uid()}
+	case 1:
+		p.Resource = ast.ScopeTypeIn{Entity: g.uid()}
+	case 2:
+		p.Resource = ast.ScopeTypeIs{Type: ty()}
+	case 3:
+		p.Resource = ast.ScopeTypeIsIn{Type: ty(), Entity: g.uid()}
+	}
+	for n := g.r.Intn(3); n > 0; n-- {
+		kind := ast.Condition(ast.ConditionWhen)
+		if g.r.Intn(3) == 0 {
+			kind = ast.ConditionUnless
+		}
+		p.Conditions = append(p.Conditions, ast.ConditionType{Condition: kind, Body: g.expr(kBool, g.r.Intn(condDepth+1))})
+	}
+	return p
+}
+
+// driver "authz": random policy sets (1-12 policies) over random environments
+func driveAuthz(seed int64, n int, params map[string]string) []Obj {
+	g := newGen(seed, 3)
+	out := make([]Obj, 0, n)
+	for i := 0; i < n; i++ {
+		np := 1 + g.r.Intn(12)
+		if g.r.Intn(20) == 0 {
+			np = 0
+		}
+		pols := []any{}
+		order := []any{}
+		for k := 0; k < np; k++ {
+			id := fmt.Sprintf("p%d", k)
+			pols = append(pols, Obj{"id": id, "policy": cwf.PolicyToJ(g.policy(3))})
+			order = append(order, id)
+		}
+		g.r.Shuffle(len(order), func(a, b int) { order[a], order[b] = order[b], order[a] })
+		out = append(out, Obj{"op": "authz", "policies": pols, "order": order, "env": cwf.EnvToJ(g.env()),
+			"text": i%2 == 0, "layout": g.r.Intn(1000)})
+	}
+	return out
+}
+
+func init() {
+	drivers["authz"] = driveAuthz
 }
